@@ -105,7 +105,11 @@ func (e *Engine) execInstr(fr *frame, b *ssa.BasicBlock, ins ssa.Instruction, re
 		l := e.toInt64(e.scalar(e.operand(fr, x.Len)), x.Len.Type())
 		e.panicSite(fr, x, reach, and(app("bvsge", l, bvLit(0, 64)), app("bvsle", l, bvLit(1<<40, 64))), "makeslice-len")
 		ref := e.alloc()
-		e.initBacking(heap, ref, st.Elem())
+		nE := -1
+		if k, ok := e.smallConst(l); ok {
+			nE = k
+		}
+		e.initBacking(heap, ref, st.Elem(), nE)
 		fr.vals[x] = SliceVal{ref, bvLit(0, 64), l}
 	case *ssa.MapUpdate:
 		e.mapUpdate(fr, x, reach, heap)
@@ -640,7 +644,7 @@ func (e *Engine) sliceOp(fr *frame, x *ssa.Slice, reach string, heap Heap) Val {
 }
 
 // initBacking zero-initialises the backing array of a fresh slice.
-func (e *Engine) initBacking(heap Heap, ref string, elem types.Type) {
+func (e *Engine) initBacking(heap Heap, ref string, elem types.Type, nElems int) {
 	e.forLeaves(types.NewSlice(elem), []pathElem{{field: -1}}, elem, func(path []pathElem, suffix, leaf string, lt types.Type) {
 		c := e.comp(types.NewSlice(elem), path, suffix, leaf)
 		// innermost array sort for one index level
@@ -649,8 +653,13 @@ func (e *Engine) initBacking(heap Heap, ref string, elem types.Type) {
 			inner = arrSort(SI64, inner)
 		}
 		z := zeroOfLeaf(leaf, suffix, lt)
-		constArr := "((as const " + arrSort(SI64, inner) + ") " + nestConst(inner, leaf, z, c.nidx-1) + ")"
-		heap[c.key] = e.sc.define("H_"+c.key, c.sort, sto(e.heapGet(heap, c), ref, constArr))
+		var ca string
+		if c.nidx == 1 {
+			ca = e.zeroArr(leaf, z, nElems)
+		} else {
+			ca = "((as const " + arrSort(SI64, inner) + ") " + nestConst(inner, leaf, z, c.nidx-1) + ")"
+		}
+		heap[c.key] = e.sc.define("H_"+c.key, c.sort, sto(e.heapGet(heap, c), ref, ca))
 	})
 }
 
@@ -847,10 +856,12 @@ func (e *Engine) mapUpdate(fr *frame, x *ssa.MapUpdate, reach string, heap Heap)
 	e.panicSite(fr, x, reach, not(eq(m, bvLit(0, 32))), "nil-map-write")
 	mc := e.mapComponents(mt)
 	cur := e.heapGet(heap, mc.present)
-	heap[mc.present.key] = e.sc.define("H_mp", mc.present.sort, sto(cur, m, sto(sel(cur, m), k, "true")))
+	heap[mc.present.key] = e.sc.define("H_mp", mc.present.sort, sto(cur, m, sto(sel(cur, m), k, ite(e.guard, "true", sel(sel(cur, m), k)))))
+	e.dirty[mc.present.key] = true
 	ls := e.leavesOf(e.operand(fr, x.Value), mt.Elem())
 	for i, c := range mc.vals {
 		cur := e.heapGet(heap, c)
-		heap[c.key] = e.sc.define("H_mv", c.sort, sto(cur, m, sto(sel(cur, m), k, ls[i])))
+		heap[c.key] = e.sc.define("H_mv", c.sort, sto(cur, m, sto(sel(cur, m), k, ite(e.guard, ls[i], sel(sel(cur, m), k)))))
+		e.dirty[c.key] = true
 	}
 }
